@@ -34,7 +34,7 @@ const (
 	// BaseTime is the origin of the logical clocks (tx timestamps and default block timestamps), in ns.
 	BaseTime int64 = 1600000000000000000
 	// ExecTimeout is how long ExecBlock waits for the executed event before reporting a wedge.
-	ExecTimeout = 60 * time.Second
+	ExecTimeout = 180 * time.Second
 )
 
 // Options configures a Node. The zero value is usable except for Dir.
